@@ -541,7 +541,7 @@ func c08Cases(c *mon.Ctx) []*c08Case {
 			nr = 2
 		}
 		nd := c08Datagrams(op, nr)
-		for _, u := range []int{9, 10, 11, 25, 60} {
+		for _, u := range []int{9, 10, 11, 25, 60, 64, 65, 66, 300} {
 			for _, pos := range []int{0, nd - 1} {
 				for _, b := range []int{0, 2} {
 					un, bu := make([]int, nd), make([]int, nd)
